@@ -16,7 +16,7 @@ var c08Sets = []SetChoice{
 	{Spec: grid.Spec{Depth: 4, Cell: 0.5, Origin: 100, TileWidth: 256}, Bases: []int{0}, Span: 5},
 	{Spec: grid.Spec{Name: "NetherlandsRDNewQuad"}, Bases: []int{8, 10, 12}, Span: 5},
 	{Spec: dy(27, 0.03125, 0), Bases: []int{22, 23}, Span: 5}, // levels 26..31, evenly dividing
-	{Spec: dy(27, 0.03125, 0), Bases: []int{22, 23}, Span: 5},
+	{Spec: dy(28, 0.015625, 0), Bases: []int{24}, Span: 5}, // levels 28..32: the deepest level the keys can address, evenly dividing
 	{Spec: grid.Spec{Name: "WebMercatorQuad"}, Bases: []int{10}, Span: 4}, // not round: skipped and counted (guards the oracle's roundness test)
 }
 
